@@ -288,9 +288,12 @@ NDigits(v) == LET d == MagDigits(v) IN Cardinality({i \in 1..Len(d) : d[i] # 46}
 NumText(v) ==
   IF ~FmtFits(v) THEN <<>>
   ELSE (IF v.n < 0 THEN <<45>> ELSE <<32>>) \o MagDigits(v)
-\* Singles with more than 9 and Doubles with more than 17 digits switch to E notation,
-\* which the model does not produce
-FmtOK(v) == IsNum(v) /\ FmtFits(v) /\ NDigits(v) <= (IF v.t = "D" THEN 17 ELSE 9)
+\* The exact expansion of a dyadic is "the shortest decimal that reads back" when it has at most
+\* 6 (Single) / 15 (Double) significant digits: decimals that short are in one-to-one correspondence
+\* with the floats they round to, so no shorter decimal reads back to the same value.  With more
+\* digits a shorter decimal may exist (-54689.8125! prints as -54689.813); those values are outside
+\* the formatting model (the harness checks their printed form by read-back and minimality instead).
+FmtOK(v) == IsNum(v) /\ FmtFits(v) /\ NDigits(v) <= (IF v.t = "D" THEN 15 ELSE IF v.t = "S" THEN 6 ELSE 9)
 
 (***************************************************************************)
 (* Numeric text: INPUT fields, VAL                                          *)
